@@ -63,6 +63,19 @@ func newCaseWorld(work string, id int, opts harness.Options, tag string) (*harne
 	return w, dir, nil
 }
 
+func newCaseWorldStd(work string, id int, opts harness.Options, tag string) (*harness.World, string, error) {
+	dir := filepath.Join(work, fmt.Sprintf("%s-%d", tag, id))
+	os.RemoveAll(dir)
+	w, err := harness.OpenWorld(dir, opts)
+	if err != nil {
+		return nil, dir, err
+	}
+	if err := w.BuildStandard(); err != nil {
+		return nil, dir, fmt.Errorf("fixture: %v", err)
+	}
+	return w, dir, nil
+}
+
 func absorbDeploys(g *mixGen, txs []pb.Transaction, res *harness.BlockResult) {
 	for i, tx := range txs {
 		if bt, ok := tx.(*pb.BxhTransaction); ok && bt.To != nil && bt.To.String() == (&types.Address{}).String() && i < len(res.Receipts) && res.Receipts[i].Status == pb.Receipt_SUCCESS && len(res.Receipts[i].Ret) == 20 {
